@@ -349,12 +349,12 @@ func c18inject(r *core.Run, ss simSess) {
 		n := 1 + rg.IntN(10)
 		var want []NEv
 		type inj struct {
-			key      tcell.Key
-			rn       rune
-			mod      tcell.ModMask
-			mouse    bool
-			x, y     int
-			btn      tcell.ButtonMask
+			key   tcell.Key
+			rn    rune
+			mod   tcell.ModMask
+			mouse bool
+			x, y  int
+			btn   tcell.ButtonMask
 		}
 		var injs []inj
 		for k := 0; k < n; k++ {
